@@ -28,12 +28,16 @@ committed handler is in its own trash list; trashed handlers stop running.
 Abstracted (exercised by the real runs of the check, not proved): the non-atomicity of the monkey-patched or-event,
 OS pipes/semaphore/process reaping.
 
-**Where the property fails on the real code** (`known_findings/C20.json`, §6): the refinement needs
-`Protocol.choose_perm` — the scheduler's answer must not depend on the order in which the candidate times of one leg
-are pushed. The real schedulers return the first-pushed of several minimal events and the multi-process mediator
-pushes in arrival order, so when two handlers started in the same leg report the same candidate time (sampling
-interval = end-of-run time; the sphere handler and the dipole handler of one pair of spheres in the shipped
-`hard_disk_dipoles_cells.ini`) the committed handler depends on the order in which the workers finish.
+**Historical note (ties).** Until the repair recorded in `known_findings/C20.json` (status "fixed") the multi-process
+mediator called `push_event` inside the receive loop, i.e. in the order in which the workers finished. The schedulers
+return the first-pushed of several minimal events, so when two handlers started in the same leg reported the same
+candidate time (sampling interval = end-of-run time; the sphere handler and the dipole handler of one pair of
+spheres in the shipped `hard_disk_dipoles_cells.ini`) the committed handler depended on the arrival order, and the
+refinement theorem needed the extra hypothesis "the scheduler's answer does not depend on the push order"
+(`Protocol.choose_perm`). The repaired mediator collects the candidate times in `received_event_times` and pushes
+them after the loop in the order in which the activator returned the handlers (`pushAll`) — the push sequence of the
+single-process mediator. `stage_inv` now proves the pushes ARE `created` in order, and `mp_refines_sp` no longer
+assumes anything about ties. §6 keeps the counterexample for the old arrival-order variant.
 -/
 namespace JF.C20
 open JF.MP
@@ -68,21 +72,21 @@ theorem leg_terminates (c : Cfg) (n : Nat) {running : Nat → Bool} {s : St} {cr
     (waits : List (List Nat)) (hB : BInv running s) (hn : created.Nodup)
     (hfresh : ∀ h ∈ created, running h = false) (hl : legLegit c n s created waits = true) :
     (legRecv c n s created waits = .error .starved ∧ waits.length < 2 * created.length) ∨
-    ∃ L rest, legRecv c n s created waits = .ok (L, rest) ∧ rest.length ≤ waits.length ∧
+    ∃ L ps rest, legRecv c n s created waits = .ok (L, ps, rest) ∧ rest.length ≤ waits.length ∧
       waits.length - rest.length ≤ 2 * created.length := by
   rcases legRecv_ok c n waits hB hn hfresh hl with h | ⟨L, rest, h1, -, h3, h4⟩
   · exact Or.inl h
-  · exact Or.inr ⟨L, rest, h1, h3, h4⟩
+  · exact Or.inr ⟨L, _, rest, h1, h3, h4⟩
 
 /-- fairness in its simplest form: an adversary that supplies `2 · len(created)` legitimate waits is enough -/
 theorem leg_terminates_fair (c : Cfg) (n : Nat) {running : Nat → Bool} {s : St} {created : List Nat}
     (waits : List (List Nat)) (hB : BInv running s) (hn : created.Nodup)
     (hfresh : ∀ h ∈ created, running h = false) (hl : legLegit c n s created waits = true)
     (hlen : 2 * created.length ≤ waits.length) :
-    ∃ L rest, legRecv c n s created waits = .ok (L, rest) := by
-  rcases leg_terminates c n waits hB hn hfresh hl with ⟨-, h⟩ | ⟨L, rest, h, -⟩
+    ∃ L ps rest, legRecv c n s created waits = .ok (L, ps, rest) := by
+  rcases leg_terminates c n waits hB hn hfresh hl with ⟨-, h⟩ | ⟨L, ps, rest, h, -⟩
   · omega
-  · exact ⟨L, rest, h⟩
+  · exact ⟨L, ps, rest, h⟩
 
 /-! ## 2. `stage_inv` -/
 
@@ -95,7 +99,8 @@ activator protocol (`hn hfresh hrun htr`) and a legitimate adversary, the leg
   other outcome is `starved` (the adversary stopped before `2·len(created)` waits);
 * re-establishes the invariant for `running' = (running ∪ created) \ trash`;
 * commits the out-state tagged with the leg of the last start of the chosen handler;
-* pushes exactly the candidate times of this leg (a permutation of `created`);
+* pushes exactly the candidate times of this leg, in the order in which the activator returned the handlers — the
+  `push_event` sequence of the single-process mediator (the arrival order `o.loop.recvd` is irrelevant);
 * leaves every worker that is not (still) running blocked with an empty pipe. -/
 theorem stage_inv (c : Cfg) (n : Nat) {running : Nat → Bool} {last : Nat → Nat} {s : St} {created : List Nat}
     (waits : List (List Nat)) {chosen : Nat} {trash : List Nat}
@@ -108,15 +113,15 @@ theorem stage_inv (c : Cfg) (n : Nat) {running : Nat → Bool} {last : Nat → N
       BInv (running' running created trash) o.st ∧
       (∀ h, (o.st h).tag = last' last created n h) ∧
       o.tag = last' last created n chosen ∧
-      o.loop.pushed.Perm (created.map fun h => (h, n)) ∧
+      o.pushes = (created.map fun h => (h, n)) ∧
       (∀ h, running' running created trash h = false → (o.st h).quiescent = true) ∧
       (∀ h, (o.st h).stage ≠ .outStarted → (o.st h).quiescent = true) := by
   rcases legRecv_ok c n waits hB hn hfresh hl with ⟨h1, h2⟩ | ⟨L, rest, hL, hP, -, -⟩
   · left; exact ⟨by simp [leg, h1], h2⟩
   · right
     obtain ⟨p, y, s3, ds, hcom, htrash, hB3, hlast3, hq1, hq2⟩ := legEnd_ok hB hlast hP hrun htr
-    exact ⟨⟨s3, upd L.st chosen y, L, rest.length, last' last created n chosen, p, ds⟩,
-      by simp [leg, hL, hcom, htrash], hB3, hlast3, rfl, hP.perm, hq1, hq2⟩
+    exact ⟨⟨s3, upd L.st chosen y, L, created.map fun h => (h, n), rest.length, last' last created n chosen, p, ds⟩,
+      by simp [leg, hL, hcom, htrash], hB3, hlast3, rfl, rfl, hq1, hq2⟩
 
 /-- "Event Process not ready!" never fires: under the invariant every handler the activator may return is idle -/
 theorem activatable_is_idle {running : Nat → Bool} {s : St} (hB : BInv running s) {h : Nat}
@@ -173,6 +178,8 @@ obeying the activator/scheduler protocol, every core count, every arity assignme
 sequence of (handler, event time, out-state, global state after the commit) of the single-process mediator over the
 same number of legs, or it stopped because the adversary broke the contract of `connection.wait` / stopped
 answering. No other outcome exists: no `MediatorError`, no `KeyError`, no blocked `recv`, no deadlock.
+Nothing is assumed about the scheduler (`env.choose` is an arbitrary function of its state and of the sequence of
+pushes): equal candidate times are covered, because both mediators push the same sequence.
 Every sample is written by a mediating method as a function of the committed handler and the global state, so the
 samples coincide as well. -/
 theorem mp_refines_sp {G E T O : Type} (env : Env G E T O) (R : E → Nat → Bool) (P : Protocol env R) (cfg : Cfg)
@@ -230,36 +237,39 @@ theorem all_quiescent_at_end {running : Nat → Bool} {s : St} (hB : BInv runnin
 def exCfg : Cfg := ⟨3, fun _ => false⟩
 /-- leg 7 from the initial state; the activator returns handlers 0 1 2 3 -/
 def exCreated : List Nat := [0, 1, 2, 3]
-/-- adversary: first the times of 0 1 2 arrive (after the third, `0 < 1 < 2`: handler 0 is started ahead of time),
-then the pre-computed out-state of 0 (which starts the pre-computation of 1) together with the time of 3 -/
-def exWaits : List (List Nat) := [[0, 1, 2], [0, 3]]
+/-- adversary: first the times of 2 0 1 arrive, in this order (after the third, `0 < 1 < 2`: handler 2, the head of
+`pipes_time_received`, is started ahead of time), then the pre-computed out-state of 2 (which starts the
+pre-computation of 0) together with the time of 3 -/
+def exWaits : List (List Nat) := [[2, 0, 1], [2, 3]]
 
-/-- the scheduler returns 3; its trash list contains 1 (pre-computation in flight: drained and discarded) and 0
-(pre-computed out-state stored: deleted); 2 stays suspended -/
-def exLeg : Except Err LegOut := leg exCfg 7 (fun _ => {}) exCreated exWaits 3 [3, 1, 0]
+/-- the scheduler returns 3; its trash list contains 0 (pre-computation in flight: drained and discarded) and 2
+(pre-computed out-state stored: deleted); 1 stays suspended -/
+def exLeg : Except Err LegOut := leg exCfg 7 (fun _ => {}) exCreated exWaits 3 [3, 0, 2]
 
 example : legLegit exCfg 7 (fun _ => {}) exCreated exWaits = true := by decide
 
 example : (match exLeg with
     | .ok o => decide (
-        o.loop.pre = [0, 1] ∧                                   -- two pre-computations were started
-        o.loop.pushed = [(0, 7), (1, 7), (2, 7), (3, 7)] ∧
-        (o.atCommit 0).stored = some 7 ∧ (o.atCommit 1).stage = .outStarted ∧
-        (o.atCommit 2).stage = .suspended ∧ (o.atCommit 3).stored = some 7 ∧
+        o.loop.pre = [2, 0] ∧                                   -- two pre-computations were started
+        o.loop.recvd = [(2, 7), (0, 7), (1, 7), (3, 7)] ∧       -- arrival order
+        o.pushes = [(0, 7), (1, 7), (2, 7), (3, 7)] ∧           -- push order = order of `created`
+        (o.atCommit 2).stored = some 7 ∧ (o.atCommit 0).stage = .outStarted ∧
+        (o.atCommit 1).stage = .suspended ∧ (o.atCommit 3).stored = some 7 ∧
         o.tag = 7 ∧ o.path = .startedNow ∧
-        o.discarded = [3, 1, 0] ∧                               -- 1 (in flight) and 0 (stored) thrown away, 3 = the committed one
-        (o.st 0).stage = .idle ∧ (o.st 0).stored = none ∧ (o.st 1).stage = .idle ∧ (o.st 1).chan = [] ∧
-        (o.st 2).stage = .suspended ∧ (o.st 3).stage = .idle ∧ o.waitsLeft = 0)
+        o.discarded = [3, 0, 2] ∧                               -- 0 (in flight) and 2 (stored) thrown away, 3 = the committed one
+        (o.st 2).stage = .idle ∧ (o.st 2).stored = none ∧ (o.st 0).stage = .idle ∧ (o.st 0).chan = [] ∧
+        (o.st 1).stage = .suspended ∧ (o.st 3).stage = .idle ∧ o.waitsLeft = 0)
     | .error _ => false) = true := by decide
 
-/-- next leg: only 0 and 1 are restarted, 2 is still suspended from leg 7 and is chosen now: its out-state carries
-tag 7 (the leg of its last start), while a pre-computed out-state of 0 from leg 8 is used in leg 9 -/
+/-- next leg: only 0 and 2 are restarted, 1 is still suspended from leg 7 and is chosen now: its out-state carries
+tag 7 (the leg of its last start), while the out-state of 2 pre-computed in leg 8 is committed in leg 9 -/
 example : (match exLeg with
     | .ok o =>
-      match leg exCfg 8 o.st [0, 1] [[1, 0]] 2 [2] with
+      match leg exCfg 8 o.st [0, 2] [[2, 0]] 1 [1] with
       | .ok o2 =>
-        decide (o2.tag = 7 ∧ o2.path = .startedNow ∧ o2.loop.pre = [1] ∧ (o2.st 1).stage = .outStarted) &&
-        (match leg exCfg 9 o2.st [2] [[2]] 1 [1] with
+        decide (o2.tag = 7 ∧ o2.path = .startedNow ∧ o2.loop.pre = [2] ∧ (o2.st 2).stage = .outStarted ∧
+                o2.pushes = [(0, 8), (2, 8)]) &&
+        (match leg exCfg 9 o2.st [1] [[1]] 2 [2] with
          | .ok o3 => decide (o3.tag = 8 ∧ o3.path = .inFlight)
          | .error _ => false)
       | .error _ => false
@@ -304,9 +314,6 @@ theorem toy_protocol : Protocol toyEnv (fun e h => e h) where
     simp only [toyEnv]
     rcases h3 with h | h | h <;> rw [h] <;> cases he : e _ <;> simp [he]
   choose_keep := by intro e l h; rfl
-  choose_perm := by
-    intro e l l' hp
-    simp only [toyEnv, (hp.map (·.2)).sum_nat]
   trash_self := by intro e c; simp [toyEnv]
   trash_run := by intro e c h; rfl
 
@@ -321,7 +328,7 @@ example : ((runMP toyEnv exCfg [[[2, 0], [1]], [[0]], [[1]], [[2]], [[0]], [[1]]
 example : (runSP toyEnv 6 0 5 (fun _ => false) (fun _ => 0) (fun _ => 0)).map (·.handler) = [0, 1, 2, 0, 1, 1] := by
   decide
 
-/-! ## 6. the hypothesis `choose_perm` is needed: ties (known finding) -/
+/-! ## 6. ties between candidate times: harmless now, and why they were not (historical) -/
 
 /-- `ListScheduler.get_succeeding_event` on the events of one leg: `min(events, key=time)` — the *first* minimal one -/
 def firstMin : List (Nat × Nat) → Nat
@@ -333,13 +340,48 @@ candidate time -/
 def tieEnv : Env Nat (Nat → Bool) Nat Nat :=
   { toyEnv with timeOf := fun _ _ _ => 7, choose := fun e l => (firstMin l, e) }
 
-/-- **Counterexample to the property when candidate times tie** (found on the real code, `known_findings/C20.json`):
-with equal candidate times in one leg, a scheduler that returns the first-pushed minimal event, and an adversary that
-delivers the times in the order 2, 1, 0, the multi-process mediator runs without any error and commits handler 2
-where the single-process mediator commits handler 0. Every other hypothesis of `mp_refines_sp` holds for this run. -/
-theorem tie_breaks_refinement :
+/-- with the model of the repaired mediator the tie is harmless: all candidate times equal, a scheduler that returns
+the first-pushed minimal event, the times arrive in the order 2, 1, 0 — both mediators commit handler 0 -/
+example :
     (runSP tieEnv 1 0 5 (fun _ => false) (fun _ => 0) (fun _ => 0)).map (·.handler) = [0] ∧
     ((runMP tieEnv exCfg [[[2, 1, 0]]] 0 5 (fun _ => false) (fun _ => {}) (fun _ => 0)).toOption.map
+      fun l => l.map (·.handler)) = some [0] := by
+  decide
+
+/-- HISTORICAL: `MultiProcessMediator.run` as it was before the repair — `push_event` inside the receive loop, i.e.
+the scheduler sees the candidate times in arrival order (`L.recvd`). Not a model of the current code. -/
+def runMPArrivalOrder {G E T O : Type} (env : Env G E T O) (cfg : Cfg) :
+    List (List (List Nat)) → Nat → G → E → St → (Nat → G) → Except (Nat × Err) (List (Commit G T O))
+  | [], _, _, _, _, _ => .ok []
+  | ws :: rest, n, g, e, s, hist =>
+    let (cr, e1) := env.activate g e
+    let hist' : Nat → G := fun m => if m = n then g else hist m
+    if legLegit cfg n s cr ws = false then .error (n, .adversary) else
+    match legRecv cfg n s cr ws with
+    | .error err => .error (n, err)
+    | .ok (L, _, _) =>
+      let (c, e2) := env.choose e1 (L.recvd.map fun p => (p.1, env.timeOf p.1 p.2 (hist' p.2)))
+      match (L.st c).commit with
+      | .error err => .error (n, err)
+      | .ok (tag, _, y) =>
+        let out := env.outOf c tag (hist' tag)
+        let g' := env.commit g out
+        let (tr, e3) := env.trash e2 c
+        match trashAll (upd L.st c y) tr with
+        | .error err => .error (n, err)
+        | .ok (s3, _) =>
+          match runMPArrivalOrder env cfg rest (n + 1) g' e3 s3 hist' with
+          | .ok l => .ok (⟨c, env.timeOf c tag (hist' tag), out, g'⟩ :: l)
+          | .error err => .error err
+
+/-- **HISTORICAL counterexample — about the OLD arrival-order mediator `runMPArrivalOrder`, not the current one**
+(it was found on the real code before the repair, `known_findings/C20.json`): with equal candidate times in one leg,
+a scheduler that returns the first-pushed minimal event, and an adversary that delivers the times in the order
+2, 1, 0, the old mediator ran without any error and committed handler 2 where the single-process mediator commits
+handler 0. -/
+theorem tie_breaks_refinement :
+    (runSP tieEnv 1 0 5 (fun _ => false) (fun _ => 0) (fun _ => 0)).map (·.handler) = [0] ∧
+    ((runMPArrivalOrder tieEnv exCfg [[[2, 1, 0]]] 0 5 (fun _ => false) (fun _ => {}) (fun _ => 0)).toOption.map
       fun l => l.map (·.handler)) = some [2] := by
   decide
 
